@@ -1006,12 +1006,15 @@ def generic_scenarios(ctx, out):
                     return fail('meta-view-raises', f'a view of K{c} raised {type(e).__name__}: {e}')
                 if sorted(allf) != want:
                     return fail('meta-eAllStructuralFeatures', f'K{c}.eAllStructuralFeatures() = {allf}, own+inherited declarations: {want}')
-                if sorted(refs) != wrefs:
-                    return fail('meta-eAllReferences', f'K{c}.eAllReferences() = {sorted(refs)} but the references among '
-                                                       f'eAllStructuralFeatures() / own+inherited are {wrefs}')
-                if sorted(attrs) != wattrs:
-                    return fail('meta-eAllAttributes', f'K{c}.eAllAttributes() = {sorted(attrs)} but the attributes among '
-                                                       f'eAllStructuralFeatures() / own+inherited are {wattrs}')
+                # (these two are reported once per graph and the graph goes on: what do eContents & co. make of it?)
+                if sorted(refs) != wrefs and 'refs' not in state:
+                    fail('meta-eAllReferences', f'K{c}.eAllReferences() = {sorted(refs)} but the references among '
+                                                f'eAllStructuralFeatures() / own+inherited are {wrefs}')
+                    state['refs'] = state['ok'] = True
+                if sorted(attrs) != wattrs and 'attrs' not in state:
+                    fail('meta-eAllAttributes', f'K{c}.eAllAttributes() = {sorted(attrs)} but the attributes among '
+                                                f'eAllStructuralFeatures() / own+inherited are {wattrs}')
+                    state['attrs'] = state['ok'] = True
                 if sorted(map(str, sups)) != sorted(map(str, anc)):
                     return fail('meta-eAllSuperTypes', f'K{c}.eAllSuperTypes() = {sups}, classes it inherits from: {sorted(anc)}')
                 for nm, got in found.items():
@@ -1269,7 +1272,7 @@ def generic_scenarios(ctx, out):
                 hist.append(['remove-feature', c, f['name']])
             st['edits'] += 1
             check_meta()
-            if state['ok'] and objs:
+            if objs:                 # (also when a class view just failed: what do the instances say?)
                 check_inst()
         st['graphs'] += 1
         if sample is None and state['ok'] and len(hist) > 8:
